@@ -8,6 +8,7 @@ import (
 	"path/filepath"
 	"sort"
 	"strings"
+	"time"
 
 	"github.com/go-python/gpython/py"
 	"github.com/go-python/gpython/stdlib"
@@ -479,6 +480,10 @@ func c09Run(rc *core.RunCtx) {
 			ups = []up{{2, 1, 2}, {2, 2, 3}, {3, 1, 3}}
 		}
 		done := map[string]bool{}
+		// the unbounded pass gets a third of the time; what it does not reach is reported as capped
+		// and the preemption-bounded plans still run
+		ubEnd := time.Now().Add(time.Until(rc.Deadline) / 3)
+		ubStop := func() bool { return rc.Expired() || (!rc.Deadline.IsZero() && time.Now().After(ubEnd)) }
 		for _, u := range ups {
 			for _, cfg := range c09Configs(u.threads, c09Programs(ops, u.maxLen), u.maxOps) {
 				if rc.Expired() || rc.Done() {
@@ -492,6 +497,11 @@ func c09Run(rc *core.RunCtx) {
 				if !rc.Take() {
 					continue
 				}
+				if !rc.Deadline.IsZero() && time.Now().After(ubEnd) {
+					rc.Cap("unbounded exploration of " + cfgString(cfg) + " not started: the pass used its share of the budget")
+					rc.Count("unbounded_capped", 1)
+					continue
+				}
 				fields := core.Fields{"config": cfgString(cfg), "bound": "unbounded", "threads": itoa(len(cfg))}
 				input := "threads " + cfgString(cfg) + " all interleavings (visited-state pruning)"
 				if rc.Describe(fields, input) {
@@ -501,7 +511,7 @@ func c09Run(rc *core.RunCtx) {
 				if !rc.Quick() {
 					maxExec = 400000
 				}
-				res, states, execs, capped := c09Unbounded(cfg, maxExec, rc.Expired)
+				res, states, execs, capped := c09Unbounded(cfg, maxExec, ubStop)
 				rc.Count("states", states)
 				rc.Count("schedules", execs)
 				if capped {
